@@ -261,6 +261,7 @@ impl ListenerSession {
         old(self).pending_attach@.contains(detach.handle.0) ==> r is Ok,      // [C13.listener.detach-for-pending-attach-not-fatal] a peer may pipeline attach and detach before the application has accepted the link (fire-and-forget clients do; the listener already keeps pipelined flows and ignores pipelined transfers for that reason): such a detach is not an `unattached-handle` error that ends the whole session -- it has to be remembered and answered in kind once the attach is taken up
 //@@ end
 //@@ fn file=fe2o3-amqp/src/acceptor/session.rs impl=`impl endpoint::Session for ListenerSession` name=allocate_incoming_link
+//@@ attr #[verifier::loop_isolation(false)]
 //@@ shape loops=for
 //@@ ret Result<OutputHandle, AllocLinkError>
 //@@ param link_handle : LinkRelayIn
